@@ -35,7 +35,8 @@ def legal(line: str):
     return None
 
 
-BOUNDARY_STR = [' 12', '12 ', ' 7 ', '²', '٣', ' a', 'a ', ' esc', 'F4 ', '', 'a', 'ab', 'A', 'esc', 'ESC', 'Esc', 'F4', 'f12', 'F13', 'TAB', 'tab', 'DELETE', 'Home', 'BREAK', 'pause', 'GUI', 'windows',
+BOUNDARY_STR = ['F04', 'f09', 'F012', 'F00', 'F0', 'F1 ', 'F٣', 'F１', 'ESC ', 'ESCAPE', 'Escape', 'es c', 'TAB\t', 'SPACE', 'space', 'END', 'End', 'UP', 'up', 'ENTER', 'Enter', 'a\u0301', '\U0001f600',
+                ' 12', '12 ', ' 7 ', '²', '٣', ' a', 'a ', ' esc', 'F4 ', '', 'a', 'ab', 'A', 'esc', 'ESC', 'Esc', 'F4', 'f12', 'F13', 'TAB', 'tab', 'DELETE', 'Home', 'BREAK', 'pause', 'GUI', 'windows',
                 'SPACE', 'END', ' ', '日', '1', '12', '0065', '00065', '12345', '9999', '+65', '-0', '1_0', '1.5', '-1', '007', 'x y', 'UPARROW', 'é']
 BOUNDARY_INT = ['0', '1', '007', '0-1', '-1', '2^70', '1.5', '3/2', '4/2', 'TRUE', 'FALSE', '"a"', '"5"', '1,2', '5.', '10^3', '0*5', '2.0', '(3)', '1==1', '100']
 VALIDATED = sorted(NOARG | set(MODS) | DELAYS | {'ALTCHAR'} | ONECHAR)
